@@ -53,6 +53,11 @@ def build(case):
                                nl=case.get("nl", "\n"), final_nl=case.get("final_nl", True))
     a = spec["sections"][-1]
     a["ncols"] = c
+    for t in case.get("after", []):
+        if t == "P":
+            spec["sections"].append(lastext.section("P", "~Parameter", [lastext.item("BHT", "DEGC", "35.5", "temp"), lastext.item("MUD", "", "GEL", "mud")]))
+        elif t == "O":
+            spec["sections"].append(lastext.section("O", "~Other", [{"t": "text", "text": "1 2 3 4"}, {"t": "text", "text": "5 6 7 8"}]))
     if case.get("version_section") == "no-wrap-item":
         v = spec["sections"][0]
         v["lines"] = [ln for ln in v["lines"] if ln.get("m") != "WRAP"]
@@ -84,6 +89,8 @@ def oracle(case):
             "d<c" if d < c else "d>c" if d > c else "d=c", "sign-" + case.get("sign", "pos"))
     if case.get("noise"):
         out.cls("noise")
+    if case.get("after"):
+        out.cls("trailing-section")
     out.nontrivial = (d != c) or (wrap and c % wrap == 0 and c > wrap) or r == 1 or c == 1 \
         or case.get("sign") == "neg"
     las = read_spec(spec, engine=case["engine"])
@@ -116,6 +123,11 @@ def grid(tier):
                         if r <= 3 and c <= 5 and d <= 5:
                             for dlm in ("COMMA", "TAB"):
                                 yield dict(d=d, c=c, r=r, engine=engine, sign=sign, dlm=dlm)
+                        if sign == "pos" and r <= 3 and c <= 6:
+                            # what the last line of ~A looks like, with and without a following section
+                            for noise in ([[r, "b"]], [[r, "c"]], [[0, "c"]], [[r, "c"], [r, "b"]]):
+                                for after in ([], ["P"], ["O"]):
+                                    yield dict(d=d, c=c, r=r, engine=engine, sign=sign, noise=noise, after=after)
                         if sign == "pos" and r <= 4:
                             # no WRAP line in ~Version, or no ~Version section at all: the file is not wrapped
                             yield dict(d=d, c=c, r=r, engine=engine, sign=sign, version_section="no-wrap-item")
@@ -159,7 +171,8 @@ def big_cases(draw):
     from vlib import strategies as S_
     case["scaffold"] = draw(S_.scaffold())
     nlines = r if not wrapped else r * (c // case["wrap"] + 2)
-    case["noise"] = draw(st.lists(st.tuples(st.integers(0, nlines), st.sampled_from("bc")), max_size=3))
+    case["noise"] = draw(st.lists(st.tuples(st.one_of(st.integers(0, nlines), st.just(nlines)), st.sampled_from("bc")), max_size=3))
+    case["after"] = draw(st.sampled_from([[], [], ["P"], ["O"], ["P", "O"]]))
     return case
 
 
